@@ -197,8 +197,9 @@ def run(ctx):
     ctx.bounds['vector_kernel_lengths'] = '0..%d for both sum kernels, 0..%d for the AVX2 min / max kernels' % (VMAX, VMM)
     # thorough: the Sum / Avg / Min / Max wrappers over events (apply and apply_refs), batches of 0..2 events whose field is missing or any value
     agg_tasks = [('agg', a, m, k) for a in ('Sum', 'Avg', 'Min', 'Max') for m in ('apply', 'apply_refs') for k in (0, 1, 2)] if ctx.tier == 'thorough' else []
-    if agg_tasks:
-        ctx.bounds['aggregate_wrappers'] = 'Sum / Avg / Min / Max ::apply and ::apply_refs on batches of 0..2 events whose field is missing, Int, Float (all bit patterns, NaN included), Str, Bool or Null'
+    # count / first / last are positional: cheap, in both tiers
+    agg_tasks += [('agg', a, m, k) for a in ('Count', 'First', 'Last') for m in ('apply', 'apply_refs') for k in range(0, 4 if ctx.tier == 'quick' else 6)]
+    ctx.bounds['aggregate_wrappers'] = ('Count / First / Last ::apply and ::apply_refs on batches of 0..%d events' % (3 if ctx.tier == 'quick' else 5)) + ('; Sum / Avg / Min / Max ::apply and ::apply_refs on batches of 0..2 events' if ctx.tier == 'thorough' else '') + '; the field of each event is missing, Int, Float (all bit patterns, NaN included), Str, Bool or Null'
     with ProcessPoolExecutor(max_workers=14, mp_context=mp.get_context('fork')) as pool:
         res = list(pool.map(_worker, tasks))
         ares = list(pool.map(_agg_worker, agg_tasks)) if agg_tasks else []
@@ -304,7 +305,19 @@ def agg_job(agg, method, k):
         isf = rv.disc == V.vdisc('Float'); isn = rv.disc == V.vdisc('Null')
         fv = rv.fields['Float'][0] if 'Float' in rv.fields else FPVal(0.0, F64)
         out = []
-        if agg == 'Sum':
+        if agg == 'Count':
+            out.append(('count is the number of events', And(rv.disc == V.vdisc('Int'), rv.fields['Int'][0] == k)))
+        elif agg in ('First', 'Last'):
+            if k == 0: out.append(('%s of an empty batch is Null' % agg.lower(), isn))
+            else:
+                i = 0 if agg == 'First' else k - 1
+                w = vals[i]
+                # scalar payloads must be identical (floats bit for bit); a Str payload goes through Box<str>::clone (std, opaque here): variant only
+                eqs = [And(w.disc == V.vdisc('Null'), rv.disc == V.vdisc('Null')), And(w.disc == V.vdisc('Str'), rv.disc == V.vdisc('Str'))]
+                for c in ('Int', 'Float', 'Bool'):
+                    if c in rv.fields: eqs.append(And(w.disc == V.vdisc(c), rv.disc == V.vdisc(c), rv.fields[c][0] == w.fields[c][0]))
+                out.append(('%s is the field of the %s event, Null when that event lacks it' % (agg.lower(), agg.lower()), If(pres[i], Or(*eqs), isn)))
+        elif agg == 'Sum':
             out.append(('sum of the valid numeric values (missing, non-numeric and NaN values ignored)', And(isf, same(fv, acc))))
         elif agg == 'Avg':
             out.append(('no valid value gives Null', (cnt == 0) == isn))
